@@ -18,6 +18,8 @@ extern crate rustc_interface;
 extern crate rustc_middle;
 extern crate rustc_session;
 extern crate rustc_span;
+extern crate rustc_infer;
+extern crate rustc_trait_selection;
 
 use rustc_driver::Compilation;
 use rustc_hir::def::DefKind;
@@ -26,6 +28,8 @@ use rustc_middle::mir::{self, interpret::GlobalAlloc, Body, Operand, Place, Proj
 use rustc_middle::ty::{self, Instance, Ty, TyCtxt, TypingEnv};
 use rustc_middle::ty::print::PrintTraitRefExt;
 use rustc_span::Span;
+use rustc_infer::infer::TyCtxtInferExt;
+use rustc_trait_selection::infer::InferCtxtExt;
 use std::collections::BTreeSet;
 use std::fmt::Write as _;
 
@@ -741,6 +745,14 @@ fn dump<'tcx>(tcx: TyCtxt<'tcx>) -> J {
                     o.push(("copy", J::Bool(copy)));
                     if let Ok(l) = tcx.layout_of(env.as_query_input(self_ty)) {
                         o.push(("size", J::UInt(l.size.bytes() as u128)));
+                    }
+                    // auto traits, decided by rustc's trait solver
+                    let infcx = tcx.infer_ctxt().build(ty::TypingMode::PostAnalysis);
+                    for (nm, sym) in [("send", rustc_span::sym::Send), ("sync", rustc_span::sym::Sync)] {
+                        if let Some(tr) = tcx.get_diagnostic_item(sym) {
+                            let r = infcx.type_implements_trait(tr, [self_ty], env.param_env);
+                            o.push((nm, J::Bool(r.must_apply_modulo_regions())));
+                        }
                     }
                 }
                 adts.push(J::Obj(o));
